@@ -6,6 +6,7 @@ import (
 	"context"
 	"fmt"
 	"net"
+	"net/netip"
 	"sort"
 	"time"
 
@@ -17,6 +18,8 @@ import (
 	"github.com/anacrolix/dht/v2/exts/getput"
 	"github.com/anacrolix/dht/v2/int160"
 	"github.com/anacrolix/dht/v2/krpc"
+	"github.com/anacrolix/dht/v2/types"
+	"github.com/anacrolix/generics"
 
 	"verifharness/kit"
 	"verifharness/refmodel"
@@ -53,6 +56,8 @@ type C19Sc struct {
 	Lists   []C19List
 	Initial int // list installed at construction (-1 none)
 	Ops     []C19Op
+	// Security: BEP 42 is enforced; every simulated node has an ID that is valid for its address
+	Security bool
 }
 
 func c19Addr(i int, dual bool) *net.UDPAddr {
@@ -102,10 +107,11 @@ func genC19(t *rapid.T) C19Sc {
 		sc.Lists = append(sc.Lists, l)
 	}
 	sc.Initial = uniformInt(t, nl+1, "initial") - 1
+	sc.Security = uniformInt(t, 3, "security") == 0
 	n := 4 + uniformInt(t, deep(t, 22), "nops")
 	for i := 0; i < n; i++ {
 		op := C19Op{Node: uniformInt(t, sc.Nodes, "op.node")}
-		op.Kind = pick(t, "op.kind", "inq", "inq", "inq", "inr", "ine", "ping", "query", "findnode", "getpeers", "get", "put", "bootstrap", "announce", "tget", "tput", "add", "qp", "setlist", "setlist", "held", "held")
+		op.Kind = pick(t, "op.kind", "inq", "inq", "inq", "inr", "ine", "ping", "query", "findnode", "getpeers", "get", "put", "bootstrap", "announce", "tget", "tput", "add", "qp", "setlist", "setlist", "held", "held", "filter")
 		switch op.Kind {
 		case "inq":
 			op.Method = pick(t, "op.method", "ping", "find_node", "get_peers", "get", "announce_peer", "put", "nonsense")
@@ -205,9 +211,15 @@ func runC19(sc C19Sc, c *kit.Case) *kit.Violation {
 	for i := range addrs {
 		addrs[i] = c19Addr(i, sc.Dual)
 		ids[i] = [20]byte{0x19, byte(i), byte(i * 7)}
+		if sc.Security {
+			ids[i] = refmodel.Bep42Secure(ids[i], addrs[i].IP)
+		}
+	}
+	if sc.Security {
+		c.Label("security-enforced")
 	}
 	var cur *rangeList
-	opts := SrvOpts{NodeID: [20]byte{0xc1, 0x19}, Passive: sc.Passive, Hook: sc.Hook, PeerStore: true, Starting: []*net.UDPAddr{addrs[0], addrs[1]}}
+	opts := SrvOpts{NodeID: [20]byte{0xc1, 0x19}, Passive: sc.Passive, Hook: sc.Hook, PeerStore: true, Starting: []*net.UDPAddr{addrs[0], addrs[1]}, Security: sc.Security}
 	if sc.Initial >= 0 {
 		r, rl := sc.Lists[sc.Initial].build()
 		opts.Blocklist = r
@@ -384,6 +396,18 @@ func runC19(sc C19Sc, c *kit.Case) *kit.Violation {
 			})
 		case "add":
 			sv.S.AddNode(krpc.NodeInfo{ID: ids[op.Node], Addr: krpc.NodeAddr{IP: node.IP, Port: node.Port}})
+		case "filter":
+			// the node filter the server hands to every lookup it runs (announce, bootstrap, get/put, refresh)
+			ap, _ := netip.AddrFromSlice(node.IP)
+			for _, withID := range []bool{true, false} {
+				ami := types.AddrMaybeId{Addr: krpc.NodeAddrPort{AddrPort: netip.AddrPortFrom(ap, uint16(node.Port))}}
+				if withID {
+					ami.Id = generics.Some(int160.FromByteArray(ids[op.Node]))
+				}
+				if sv.S.TraversalNodeFilter(ami) && nodeBlocked {
+					return kit.Violatef("C19:lookup-filter-admits-blocked-address", "%s: the server's lookup node filter accepts %v (with ID: %v), which the blocklist in force covers", what, node, withID)
+				}
+			}
 		case "qp":
 			sync = false
 			async(func() { sv.S.VerifQuestionablePing(context.Background(), node, ids[op.Node]) })
